@@ -1,10 +1,10 @@
 package rules
 
 import (
-	"os"
 	"fmt"
 	"go/token"
 	"go/types"
+	"os"
 	"sort"
 	"strings"
 
@@ -25,6 +25,7 @@ func init() {
 	register(&core.Rule{ID: "R-URL-SHAPE", Props: []string{"C05", "C09", "C07"}, Doc: "NormalizeURL: every return that can carry a nil error has passed the scheme test against {http:, https:}, the host tests against localhost and 127.0.0.1, the dotted-host test and SetHash(\"\") — directly or through a module helper whose nil result implies them", Run: ruleURLShape})
 	register(&core.Rule{ID: "R-HTTP-EGRESS", Props: []string{"C05"}, Doc: "calls that send HTTP requests from module code are confined to the archiver fetch closure (client.Do on the request prepared by preprocess) and the reviewed start-up/queue exemptions; anything else reachable from the pipeline is reported", Run: ruleHTTPEgress})
 	register(&core.Rule{ID: "R-NO-AUTO-REDIRECT", Props: []string{"C05", "C06"}, Doc: "no code stores HTTPClientSettings.FollowRedirects: the warc client returns 3xx responses instead of following them, so redirect targets are only fetched as gated child items", Run: ruleNoAutoRedirect})
+	register(&core.Rule{ID: "R-CONFIG-READ-CONSUME", Props: []string{"C05"}, Doc: "the configuration readers (exclusion files, local or remote) obey the reader contract: after Read / bufio.Reader.ReadString / ReadBytes every path to the next call or to a return that does not hand back the read error first looks at the returned data — the last line of an exclusion file without a trailing newline comes back together with io.EOF, dropping it silently removes that regex from the scope gate", Run: ruleConfigReadConsume})
 	register(&core.Rule{ID: "R-EXCLUSION-FILES", Props: []string{"C05"}, Doc: "GenerateCrawlConfig: the lines read from each --exclusion-file are compiled and appended to config.ExclusionRegexes before the next file is read (nothing is overwritten between iterations); compileRegexes compiles every line", Run: ruleExclusionFiles})
 	register(&core.Rule{ID: "R-DEFAULT-EXCLUDES", Props: []string{"C05"}, Doc: "GenerateCrawlConfig stores into ExcludeHosts, on every path to return nil, a value built from an append containing archive.org and archive-it.org; nothing else writes ExcludeHosts afterwards", Run: ruleDefaultExcludes})
 }
